@@ -614,7 +614,8 @@ class CircuitFinderSat:
                 if self._gate_type_variable(gate, p, q) in model:
                     gate_tt.append(True)
                 else:
-                    assert -self._gate_type_variable(gate, p, q) in model
+                    # the variable is absent from the model when no clause mentions
+                    # it (e.g. every entry of the truth table is a don't care)
                     gate_tt.append(False)
 
             first_predecessor_str = (
